@@ -54,6 +54,32 @@ TRUSTED_BASE["C18"] = [
 ASSUMPTIONS["C18"] = ["frame numbers are non-negative integers (points: integer first column and integer scale[0])",
                       "all frames of a label array have the same pixel count", "labels are non-negative"]
 
+# ---- C19, C13 (family labels) ----------------------------------------------------------------
+FAMILY["C19"] = "fam_labels"
+FAMILY["C13"] = "fam_labels"
+REQUIRED_THEOREMS["C19"] = ["C19_unique", "C19_partition", "C19_shape", "C19_multiseg", "C19_bytrack",
+                            "C19_bytrack_unbranched", "C19_counterexample_unfixed"]
+REQUIRED_THEOREMS["C13"] = ["C13_relabel", "C13_shift", "C13_import", "C13_chained_counterexample",
+                            "C13_counterexample_skip_unlisted"]
+TRUSTED_BASE["C19"] = [
+    "numpy masked assignment / `+=` on a mask / np.max / reshape(-1, ...) in C order (modelled pointwise on flat frames; shape is irrelevant to these functions)",
+    "networkx out_degree, remove_edges_from, weakly_connected_components: components in order of their first node in node insertion order (modelled as class merging along the kept edges; proved equal to the inductive relation SameSeg)",
+    "uint64 wrap-around not modelled (labels are unbounded naturals; generators keep running sums < 2^64)"]
+TRUSTED_BASE["C13"] = [
+    "numpy masked assignment, np.unique, boolean row selection, dict(zip(...)) (first position, last value), dask .compute()",
+    "networkx relabel_nodes(copy=False) with the shift-by-one map = simultaneous renaming of nodes and edges (modelled as such, not verified; checked per case against the real graph incl. time/seg_id attributes)",
+    "public path: pandas/geff construction of node_ids, seg_ids, time_values from the DataFrame in row order (checked per case through tracks_from_df)"]
+ASSUMPTIONS["C19"] = [
+    "theorems are about the model of ensure_unique_labels AS REPAIRED (fixes/D8_ensure_unique_labels.patch); C19_counterexample_unfixed proves uniqueness false of the model of the unrepaired loop",
+    "every frame has at least one pixel (np.max of an empty frame raises); labels are non-negative",
+    "relabel_segmentation_with_track_id: every node has 'time' (inside the array) and 'seg_id' (else KeyError/IndexError, modelled as `none`), distinct nodes have distinct (time, seg_id); no forest hypothesis is needed for C19_bytrack, in-degree <= 1 only for C19_bytrack_unbranched"]
+ASSUMPTIONS["C13"] = [
+    "(time, seg id) pairs are distinct per node and every time value indexes a frame (else IndexError, modelled as `none`)",
+    "handle_segmentation is modelled AS REPAIRED (fixes/D11_import_seg_skip_branch.patch: always relabels); C13_counterexample_skip_unlisted proves the property false of the model of the unrepaired caller",
+    "public path exercised with >= 1 node and ids/labels <= 200 (an empty table raises StopIteration in handle_segmentation; ids ~1e8 exhaust memory inside skimage regionprops) - outside the property"]
+
+
+
 # ---- session family: texts ---------------------------------------------------------------------
 _SESSION_TB = [
     "networkx DiGraph: insertion-ordered adjacency, degree, has_edge, remove_node drops incident edges (modelled as such)",
@@ -103,9 +129,37 @@ LEVEL_TEXT.update({
     "C17": "For every fuzzy matcher that answers with one of its candidates and every duplicate-free column list: the inferred map's columns are a permutation of the input (Lean theorem about the model of the five matching steps); difflib answers are recorded from the real run and replayed into the model.",
     "C18": "For every nearness relation and every frame dictionary: edges = exactly the near pairs in consecutive frames (Lean theorem about the loop as written); brute-force reference on random arrays / point lists with gaps and boundary distances.",
 })
+LEVEL_TEXT.update({
+    "C19": "Uniqueness across frames and per-frame partition preservation are Lean theorems about the fold with the carried running maximum, for arrays of any size; relabel-by-track is proved against the inductive relation 'same unbranched segment' (the executable component computation is proved sound and complete); brute-force oracles on the real return values, flat arrays compared with the model.",
+    "C13": "Pixel-exact characterisation of relabel_segmentation (masks read from the original, written into zeros) for arrays and assignments of any size incl. reused labels, permutations, unlisted labels and id 0 with the joint graph shift; the in-place variant is proved not to satisfy it; direct calls and the public tracks_from_df path checked against a brute-force oracle and the model.",
+})
 LEVEL_NOTE.update({p: "; ".join(TRUSTED_BASE_COMMON[2:] + TRUSTED_BASE.get(p, []))[:900] for p in FAMILY})
 
 REQUIRED_THEOREMS["C06"] = ["C06_fresh_tid", "C06_fresh_lin", "C06_fresh_nodes", "C06_has_track", "C06_neighbors",
                             "C06_book_pAddNode", "C06_book_pDelNode", "C06_book_pUpdTid", "C06_book_walk_tracks",
                             "C06_book_prims_other", "C06_book_uDeleteEdge", "C06_book_uUpdateAttrs",
                             "C06_book_uAddEdge_partial", "C06_counterexample_book_needs_lineage_rule"]
+
+REQUIRED_THEOREMS["C04"] = ["C04_tid_iff_sameSeg", "C04_walk_segment", "C04_step_deleteEdge", "C04_frame_deleteEdge"]
+REQUIRED_THEOREMS["C05"] = ["C05_lin_iff_conn", "C05_walk_visits_once", "C05_walk_subtree", "C05_step_deleteEdge",
+                            "C05_frame_deleteEdge", "C05_step_addEdge", "C05_frame_addEdge", "C05_step_swap"]
+REQUIRED_THEOREMS["C07"] = ["C07_array_write", "C07_pixels", "C07_getPixels", "C07_as_painted", "C07_step_paint_partial",
+                            "C07_step_addNode", "C07_step_delNode", "C07_step_noarray", "C07_undo_bits_updSeg", "C07_undo_bits_delNode"]
+REQUIRED_THEOREMS["C08"] = ["C08_meas_update", "C08_meas_step_updSeg", "C08_meas_step_addNode", "C08_meas_step_delNode",
+                            "C08_meas_step_noarray", "C08_meas_step_updAttrs", "C08_bulk"]
+REQUIRED_THEOREMS["C09"] = ["C09_value", "C09_bulk", "C09_bulk_measOK", "C09_incr_addEdge", "C09_incr_updSeg", "C09_agree",
+                            "C09_counterexample_unfixed"]
+REQUIRED_THEOREMS["C01"] = ["C01_prim_addEdge", "C01_prim_addEdge_law", "C01_prim_delEdge", "C01_group", "C01_group_rollback",
+                            "C01_note_updAttrs_fresh_key"]
+REQUIRED_THEOREMS["C10"] = ["C10_unknown", "C10_protected", "C10_protected_any_activation", "C10_registry_enable",
+                            "C10_registry_disable", "C10_registry_step", "C10_disabled_frozen_update",
+                            "C10_disabled_frozen_compute", "C10_disabled_frozen_updSeg", "C10_disabled_frozen_iou",
+                            "C10_disabled_frozen_updAttrs"]
+REQUIRED_THEOREMS["C11"] = ["C11_deleteEdge_unknown", "C11_addEdge_invalid", "C11_addEdge_merge", "C11_addEdge_triple",
+                            "C11_addNode_invalid", "C11_deleteNode_unknown", "C11_swap_unknown", "C11_swap_invalid",
+                            "C11_updateSeg_no_seg", "C11_updateAttrs", "C11_updateAttrs_protected", "C11_updateAttrs_unknown",
+                            "C11_addNode_conflict", "C11_step_no_history_no_refresh", "C11_addNode_refused"]
+REQUIRED_THEOREMS["C02"] = ["C02_refines", "C02_refines_step", "C02_inverts_at_post", "C02_abstraction", "C02_false_iff",
+                            "C02_false_iff_run", "C02_reachable_prefix", "C02_reachable", "C02_reachable_edit_last",
+                            "C02_one_step_user", "C02_one_step", "C02_one_step_group", "C02_session", "C02_session_step"]
+REQUIRED_THEOREMS["C20"] = ["C20_refresh", "C20_refresh_cases", "C20_refresh_nested", "C20_refresh_run"]
